@@ -23,8 +23,14 @@
       - `err1*err2/(err1-err2)` with `err1 = err2` is `inf`/`nan` in torch, so `err < tol` is
         False there; `errOk` spells that case out (a field's `x/0 = 0` would get it wrong);
       - `float("inf")` initial energies/residuals are `none`;
-      - division by a zero norm (only possible with `norm_tolerance ≤ 0`) is whatever `divR`
-        does — NaN at binary64, exactly as torch.
+      - division by a zero norm is whatever `divR` does — NaN at binary64, exactly as torch. In
+        `krylov_exp_impl` this happens (a) for `n2 = 0` when `norm_tolerance ≤ 0`, and (b) for the
+        exactly-zero start vector: `initial_norm = v.norm() = 0`, `v /= initial_norm` is all-NaN, there
+        is NO guard on `initial_norm` (`expInit`/`expImpl` below: `norm`, `divR`, nothing else), every
+        later comparison with a NaN is False, so all `max_krylov_dim` iterations run, the result is
+        `converged = False` with a NaN vector, and `krylov_exp` raises `RecursionError`. Any
+        non-zero `v`, however small relative to the tolerances, is normalised and iterated
+        (`iteration_count ≥ 1` when `max_krylov_dim ≥ 1`, theorem `C07.at_least_one_iteration`).
 -/
 import EmuVerif.Model.Scalar
 
